@@ -216,6 +216,9 @@ func (r *Run) Finish(verifDir string, seed int64, loads []map[string]any) int {
 		"loads":               loads,
 		"known_findings":      nKnown,
 	}
+	if len(NamesApplied) > 0 {
+		cov["names_normalised"] = NamesApplied
+	}
 	for k, v := range r.Extra {
 		if k != "explanation" && k != "assumptions" {
 			cov[k] = v
